@@ -1538,37 +1538,75 @@ func c19StoredWhenDefined(fn *ssa.Function, tm *Termer, st *ssa.Store, list stri
 			}
 			return "an iteration leaves the loop from its body: the elements after it stay 0"
 		}
-		undef, why := c19Undefined(tm, ip.Conds, vt)
-		on := ip.OnPath(st)
-		if on && undef {
-			return "the element is stored on a path on which " + why
+		if w := c19ElemPathOK(tm, ip, vt, ip.OnPath(st), nillable); w != "" {
+			return w
 		}
-		if on {
-			// every pointer field the value is read through that the package itself treats as possibly nil
-			// is known to be non-nil on this path
-			for _, pt := range c19DerefdNillable(vt, nillable) {
-				known := false
-				for _, g := range ip.Conds {
-					if GuardNilness(g, func(v ssa.Value) bool { return c19Strip(tm.Of(v)) == c19Strip(pt) }) == -1 {
-						known = true
-					}
-				}
-				if !known {
-					return "the element is computed through " + pt.String() + ", which may be nil (the package tests it elsewhere), on a path on which it is not known to be non-nil: the accessor panics for such a record"
-				}
-			}
-		}
-		if !on && !undef {
-			var cs []string
+	}
+	return ""
+}
+
+// c19ElemPathOK judges one path through an iteration of a series loop: `on` says whether the path gives the
+// element its value vt (a store on the path; for a series built by append: the value appended is not the
+// constant 0). The element gets the value exactly when nothing on the path says it is undefined, and then
+// every pointer field the value is read through that the package itself treats as possibly nil is known to be
+// non-nil on the path.
+func c19ElemPathOK(tm *Termer, ip *IterPath, vt *Term, on bool, nillable map[types.Object]bool) string {
+	undef, why := c19Undefined(tm, ip.Conds, vt)
+	if on && undef {
+		return "the element is stored on a path on which " + why
+	}
+	if on {
+		for _, pt := range c19DerefdNillable(vt, nillable) {
+			known := false
 			for _, g := range ip.Conds {
-				c := tm.Of(g.Cond).String()
-				if !g.True {
-					c = "!(" + c + ")"
+				if GuardNilness(g, func(v ssa.Value) bool { return c19Strip(tm.Of(v)) == c19Strip(pt) }) == -1 {
+					known = true
 				}
-				cs = append(cs, c)
 			}
-			return "the element is left at 0 on a path on which nothing says its statistic is undefined (" + strings.Join(cs, " && ") + ")"
+			if !known {
+				return "the element is computed through " + pt.String() + ", which may be nil (the package tests it elsewhere), on a path on which it is not known to be non-nil: the accessor panics for such a record"
+			}
 		}
+		// a value taken from the first result of a lookup `v, ok := f(..)` is there only where ok is: the path
+		// must have seen the boolean result come out true (with `v, _ := f(..)` a trial without a best organism
+		// makes the accessor dereference nil)
+		for _, tuple := range c19LookupsOf(vt) {
+			known := false
+			for _, g := range ip.Conds {
+				cond, out := g.Cond, g.True
+				for {
+					if u, isU := cond.(*ssa.UnOp); isU && u.Op == token.NOT {
+						cond, out = u.X, !out
+						continue
+					}
+					break
+				}
+				if ex, isEx := cond.(*ssa.Extract); isEx && out && ex.Tuple == tuple && ex.Index > 0 {
+					known = true
+				}
+				// ... or the first result itself was seen to be non-nil
+				if GuardNilness(g, func(v ssa.Value) bool {
+					ex, isEx := v.(*ssa.Extract)
+					return isEx && ex.Tuple == tuple && ex.Index == 0
+				}) == -1 {
+					known = true
+				}
+			}
+			if !known {
+				return "the element is read from the first result of the lookup " + tm.Of(tuple).String() + " on a path on which neither its found-flag was seen to be true nor the result to be non-nil: where the lookup finds nothing the accessor dereferences nil"
+			}
+		}
+	}
+	if !on && !undef {
+		var cs []string
+		for _, g := range ip.Conds {
+			c := tm.Of(g.Cond).String()
+			if !g.True {
+				c = "!(" + c + ")"
+			}
+			cs = append(cs, c)
+		}
+		return "the element is left at 0 on a path on which nothing says its statistic is undefined (" + strings.Join(cs, " && ") + ")"
 	}
 	return ""
 }
@@ -1790,6 +1828,25 @@ func c19HoldsSeries(fn *ssa.Function, v ssa.Value, use ssa.Instruction, depth in
 	return false, "a value that is not known to hold the elements of the series"
 }
 
+// c19LookupsOf: the calls `v, ok := f(..)` (a tuple whose last result is a boolean) of which vt reads through the
+// first result.
+func c19LookupsOf(vt *Term) []ssa.Value {
+	var out []ssa.Value
+	seen := map[ssa.Value]bool{}
+	vt.Walk(func(x *Term) bool {
+		if x.Op == "extract" && x.Idx == 0 && len(x.Args) == 1 && x.Args[0].V != nil {
+			if tup, ok := x.Args[0].V.Type().(*types.Tuple); ok && tup.Len() >= 2 {
+				if b, isB := tup.At(tup.Len() - 1).Type().Underlying().(*types.Basic); isB && b.Kind() == types.Bool && !seen[x.Args[0].V] {
+					seen[x.Args[0].V] = true
+					out = append(out, x.Args[0].V)
+				}
+			}
+		}
+		return true
+	})
+	return out
+}
+
 // c19NillableFields: the pointer fields that some function of the experiment package compares with nil -
 // the package's own statement that a record may lack them (Generation.Champion, Organism.Species,
 // Trial.WinnerGeneration).
@@ -1845,4 +1902,200 @@ func c19DerefdNillable(vt *Term, nillable map[types.Object]bool) []*Term {
 		return true
 	})
 	return out
+}
+
+// ---- rb7: a series built by appending one value per element ----
+//
+// `x := make(T, len(list)); for i, e := range list { x[i] = f(e) }` and
+// `x := make(T, 0, len(list)); for _, e := range list { x = append(x, f(e)) }` build the same series: the slice
+// starts empty, every iteration of a loop that visits every element of the list from the first on appends
+// exactly one value, so the value appended in the iteration for element i IS element i of the result and the
+// result has one entry per element. Where the first form leaves an element untouched (it keeps the 0 of make),
+// the second has to append the constant 0 - appending nothing would shift every later element.
+
+// c19AppendedElem is what one path through an iteration appends.
+type c19AppendedElem struct {
+	Path *IterPath
+	Val  ssa.Value
+	Zero bool // the constant 0: the element is left at its zero value
+}
+
+type c19AppendedSeries struct {
+	Loop  *Loop
+	HP    *ssa.Phi  // the header phi that carries the slice round the loop
+	IV    ssa.Value // the index of the element an iteration visits
+	Elems []c19AppendedElem
+}
+
+// c19AppendSeries proves that result idx of fn is such a series over `list`:
+//
+//   - every return yields a value of one web of phi nodes; the web starts as an empty slice made before the loop
+//     (make with length 0, or nil) and otherwise receives only `append(<the web>, v)` executed inside one loop, which
+//     carries it in one header phi;
+//   - the slice has no other name and no other writer: the values of the web are used for nothing but those appends,
+//     the phis, len/cap and the returns (no element store, no re-slicing, not handed to a call, not stored anywhere);
+//   - the loop visits every element of the list from the first to the last (c19FullRange) and is left only by
+//     exhaustion: every acyclic path through an iteration returns to the header, having appended exactly one value.
+//
+// Returns the per-path elements, or nil and what is wrong.
+func c19AppendSeries(fn *ssa.Function, tm *Termer, idx int, list string) (*c19AppendedSeries, string) {
+	var web *phiWebT
+	inWeb := func(v ssa.Value) bool {
+		ph, ok := c19StripCT(v).(*ssa.Phi)
+		return ok && web != nil && web.Phis[ph]
+	}
+	nRet := 0
+	for _, b := range fn.Blocks {
+		ret, ok := b.Instrs[len(b.Instrs)-1].(*ssa.Return)
+		if !ok || idx >= len(ret.Results) {
+			continue
+		}
+		nRet++
+		if web == nil {
+			if _, isPhi := c19StripCT(ret.Results[idx]).(*ssa.Phi); !isPhi {
+				return nil, "the series returned is not built by a loop"
+			}
+			web = phiWeb(ret.Results[idx])
+		}
+		if !inWeb(ret.Results[idx]) {
+			return nil, "a return yields a value that is not the series built by the loop"
+		}
+	}
+	if web == nil || nRet == 0 {
+		return nil, "no series is returned"
+	}
+	if len(web.Consts) > 0 {
+		return nil, "the series is not a slice"
+	}
+	var l *Loop
+	var hp *ssa.Phi
+	for ph := range web.Phis {
+		for _, cand := range Loops(fn) {
+			if cand.Header == ph.Block() {
+				if hp != nil && hp != ph {
+					return nil, "the series is carried by more than one loop"
+				}
+				hp, l = ph, cand
+			}
+		}
+	}
+	if hp == nil {
+		return nil, "the series is not built by a loop"
+	}
+	members := []ssa.Value{}
+	for ph := range web.Phis {
+		members = append(members, ph)
+	}
+	for _, f := range web.Feeders {
+		members = append(members, f)
+		if mk, isMk := f.(*ssa.MakeSlice); isMk {
+			if !c19ConstIs(mk.Len, 0) || l.Blocks[mk.Block()] {
+				return nil, "the series does not start as an empty slice made before the loop"
+			}
+			continue
+		}
+		ap, isApp := c19IsBuiltinCall(f, "append")
+		if !isApp || !l.Blocks[ap.Block()] || len(ap.Call.Args) != 2 || !(inWeb(ap.Call.Args[0]) || c19StripCT(ap.Call.Args[0]) == ssa.Value(hp)) {
+			return nil, "the series also receives " + tm.Of(f).String()
+		}
+	}
+	// no other name, no other writer
+	seen := map[ssa.Value]bool{}
+	for len(members) > 0 {
+		m := members[0]
+		members = members[1:]
+		if seen[m] {
+			continue
+		}
+		seen[m] = true
+		refs := m.Referrers()
+		if refs == nil {
+			return nil, "the series is used in a way that is not followed"
+		}
+		for _, ref := range *refs {
+			switch x := ref.(type) {
+			case *ssa.Return, *ssa.DebugRef:
+			case *ssa.ChangeType:
+				members = append(members, x)
+			case *ssa.Phi:
+				if !web.Phis[x] {
+					return nil, "the series is merged into another value"
+				}
+			case *ssa.Call:
+				if b, isB := x.Call.Value.(*ssa.Builtin); isB && (b.Name() == "len" || b.Name() == "cap") {
+					continue
+				}
+				if ap, isApp := c19IsBuiltinCall(x, "append"); isApp && len(ap.Call.Args) == 2 && ap.Call.Args[0] == m && ap.Call.Args[1] != m {
+					isFeeder := false
+					for _, f := range web.Feeders {
+						if f == ssa.Value(ap) {
+							isFeeder = true
+						}
+					}
+					if isFeeder {
+						continue
+					}
+				}
+				return nil, "the series is handed to " + tm.Of(x).String()
+			default:
+				return nil, "the series is written or re-sliced otherwise than by append"
+			}
+		}
+	}
+	iv, ok := c19FullRange(tm, l, list)
+	if !ok {
+		return nil, "the loop that appends does not visit every element of " + list
+	}
+	paths, complete := EnumIterPaths(fn, l, 512)
+	if !complete {
+		return nil, "too many paths through one iteration"
+	}
+	out := &c19AppendedSeries{Loop: l, HP: hp, IV: iv}
+	for _, ip := range paths {
+		if ip.End != "back" {
+			if len(ip.Blocks) == 2 && ip.Blocks[0] == l.Header {
+				continue
+			}
+			return nil, "an iteration leaves the loop from its body: the elements after it are missing from the series"
+		}
+		added, okA := c19AppendsOnPath(ip, hp)
+		if !okA {
+			return nil, "an iteration changes the series otherwise than by append"
+		}
+		if len(added) != 1 {
+			return nil, fmt.Sprintf("an iteration appends %d values: the entries after it are not those of their elements", len(added))
+		}
+		out.Elems = append(out.Elems, c19AppendedElem{Path: ip, Val: added[0], Zero: c19ConstIs(added[0], 0)})
+	}
+	if len(out.Elems) == 0 {
+		return nil, "no iteration returns to the loop header"
+	}
+	return out, ""
+}
+
+// c19AppendedWhenDefined is c19StoredWhenDefined for a series built by append: on every path through an
+// iteration the value appended is the statistic of the element visited exactly when nothing on the path says it
+// is undefined, and the constant 0 otherwise. The statistic is what the paths that append a value append (one
+// expression; several different ones are not judged).
+func c19AppendedWhenDefined(tm *Termer, as *c19AppendedSeries, nillable map[types.Object]bool) string {
+	var vt *Term
+	for _, e := range as.Elems {
+		if e.Zero {
+			continue
+		}
+		t := tm.Of(e.Val)
+		if vt != nil && c19Strip(vt) != c19Strip(t) {
+			return "the iterations append different expressions (" + vt.String() + ", " + t.String() + ")"
+		}
+		vt = t
+	}
+	if vt == nil {
+		return "every iteration appends 0"
+	}
+	for _, e := range as.Elems {
+		if w := c19ElemPathOK(tm, e.Path, vt, !e.Zero, nillable); w != "" {
+			return w
+		}
+	}
+	return ""
 }
